@@ -41,6 +41,9 @@ func runC01(t *simrt.Tape, o Opts) Outcome {
 		h.gen = world.GenOpts{SmallCaps: t.Choose(2, "smallcaps") == 1, NoSimple: t.Choose(3, "nosimple") == 1, AllowTinyLFU: allowTinyLFU}
 		h.weights = [opKinds]int{opEncrypt: 8, opDecrypt: 8, opOpen: 2, opCloseSess: 2, opAdvance: 3, opRevoke: 1, opForeignRotate: 1, opRestart: 1, opCrash: 1, opNewProc: 1}
 		faulty := t.Choose(2, "faulty") == 1
+		if o.Thorough() {
+			h.payloadClasses = []int{2, 0, 1, 3, 4, 5}
+		}
 		h.newProc()
 		if faulty {
 			enableRandomFaults(w, t, []string{"ms.err", "ms.errafter", "ms.falsedup", "kms.err", "aead.err", "alloc.err", "latency"}, h.base.Expire, h.base.Revoke)
@@ -81,7 +84,7 @@ func runC01(t *simrt.Tape, o Opts) Outcome {
 				disturbed++
 			}
 		}
-		n := 5 + t.Choose(56, "nops")
+		n := 5 + t.Choose(scale(o, 56, 160), "nops")
 		for i := 0; i < n && len(w.Viols) == 0; i++ {
 			h.step()
 		}
